@@ -4,6 +4,7 @@ import (
 	"fmt"
 	"math/rand"
 	"os"
+	"sort"
 	"strings"
 
 	"verif/harness/internal/smf"
@@ -71,18 +72,33 @@ func playSeq(c *Ctx, syms []string, extra []string) ([][]int, bool) {
 	if r.Exit != 0 || r.TimedOut || r.Panic || len(r.Stdout) == 0 || f.Err != "" {
 		return [][]int{}, false
 	}
-	runs := [][]int{}
-	cur := []int{}
-	for _, e := range f.Events {
-		if e.Kind == smf.KindOn && e.B > 0 {
-			cur = append(cur, e.A)
-		} else if len(cur) > 0 && (e.Kind == smf.KindOff || (e.Kind == smf.KindOn && e.B == 0)) {
-			runs = append(runs, cur)
-			cur = []int{}
-		}
-	}
+	runs := strikesByTick(f)
 	return runs, true
 }
+
+// strikesByTick: the keys struck, grouped by the tick they are struck at (in whatever order the file lists the events
+// of one tick), groups in time order
+func strikesByTick(f smf.File) [][]int {
+	at := map[int][]int{}
+	ticks := []int{}
+	for _, e := range f.Events {
+		if e.Kind == smf.KindOn && e.B > 0 {
+			if _, ok := at[e.Tick]; !ok {
+				ticks = append(ticks, e.Tick)
+			}
+			at[e.Tick] = append(at[e.Tick], e.A)
+		}
+	}
+	sort.Ints(ticks)
+	runs := [][]int{}
+	for _, t := range ticks {
+		runs = append(runs, at[t])
+	}
+	return runs
+}
+
+var conventional = map[string]bool{"": true, "m": true, "dim": true, "aug": true, "7": true, "M7": true, "maj7": true, "m7": true, "mM7": true, "m7b5": true,
+	"dim7": true, "augM7": true, "9": true, "m9": true, "M9": true, "maj9": true, "mM9": true, "sus4": true, "7sus4": true, "6": true, "m6": true, "add9": true, "sus2": true}
 
 func builtinChordList(c *Ctx) ([]yChordDef, bool) {
 	r := c.crd([]string{"info", "chord", "list"}, nil)
@@ -94,7 +110,7 @@ func builtinChordList(c *Ctx) ([]yChordDef, bool) {
 func init() {
 	register("c16", Def{
 		Debug: true,
-		Rule: "built-ins: `info attr list` vs `gen attr -d 20` and the English names; `info chord list`; every built-in chord played by name and by display. user dictionaries: every dictionary of one " +
+		Rule: "built-ins: `info attr list` vs `gen attr` and the English names; `info chord list`; every built-in chord played by name and by display. user dictionaries: every dictionary of one " +
 			"or two chord entries over a pool (fresh names, an override of MinorTriad/m, extends in {none, user names, built-in names and displays, dangling}, attributes in {built-in, user, dangling}, " +
 			"self/mutual cycles) x attribute-file variants (none, two user attributes, an unnamed attribute) - quick: all one-entry dictionaries + a seeded sample of two-entry ones, thorough: all; " +
 			"each loaded with --chord/--attr and every user name and display (plus one built-in) played; distinct = distinct dictionaries / built-ins",
@@ -229,7 +245,7 @@ func init() {
 			switch cs(k, "cmd") {
 			case "attrlist":
 				r1 := c.crd([]string{"info", "attr", "list"}, nil)
-				r2 := c.crd([]string{"gen", "attr", "-d", "20"}, nil)
+				r2 := c.crd([]string{"gen", "attr"}, nil)
 				var a1, a2 []yAttr
 				ok := len(r1.Stdout) > 0 && len(r2.Stdout) > 0 && yaml.Unmarshal(r1.Stdout, &a1) == nil && yaml.Unmarshal(r2.Stdout, &a2) == nil
 				return []Rec{{"kind": "attrlist", "ok": ok, "list": pairsOf(a1), "gen": pairsOf(a2)}}
@@ -241,7 +257,13 @@ func init() {
 				}
 				return []Rec{{"kind": "chordlist", "ok": ok, "chords": cl}}
 			case "builtinseq":
-				list, _ := builtinChordList(c)
+				all, _ := builtinChordList(c)
+				list := []yChordDef{}
+				for _, b := range all { // the symbols the statement gives the tones of (a further built-in has none to be held to)
+					if conventional[b.Meta.Display] {
+						list = append(list, b)
+					}
+				}
 				keys := []string{}
 				for rep := 0; rep < 3; rep++ {
 					for _, b := range list {
